@@ -66,7 +66,7 @@ func drawConfig(c *kit.Chooser) *config {
 	keys := chainkit.Keys()
 	var online uint64
 	for i := 0; i < cfg.nVals; i++ {
-		sp := valSpec{Key: keys[i], Stake: uint64(40 + 20*c.Intn("stake", 16)), Role: params.RoleSenator, Status: params.ValidatorOnline}
+		sp := valSpec{Key: keys[i], Stake: uint64(3 + 3*c.Intn("stake", 16)), Role: params.RoleSenator, Status: params.ValidatorOnline}
 		if i == 0 {
 			sp.Role = params.RoleChancellor
 		}
@@ -97,7 +97,7 @@ func drawConfig(c *kit.Chooser) *config {
 	for _, sp := range cfg.specs {
 		cs := sp
 		if other {
-			cs.Stake = uint64(40 + 20*c.Intn("cert-stake", 16))
+			cs.Stake = uint64(3 + 3*c.Intn("cert-stake", 16))
 		}
 		if cs.Status == params.ValidatorOnline && cs.Role != params.RoleHouse {
 			certOnline += cs.Stake
@@ -494,7 +494,7 @@ func (w *world) observe(evs []interface{}, in *voteTruth) {
 			w.r.Count("relayed", 1)
 		case staking.Evidence:
 			w.r.Probe("evidence emitted")
-			w.r.Logf("   EVIDENCE type=%d", e.Type)
+			w.r.Logf("   EVIDENCE type=%v", e.Type)
 			w.r.FP("evidence")
 		case core.ChainHeadEvent, ucon.MessageEvent, ucon.BlockProposalEvent:
 		default:
